@@ -19,7 +19,9 @@ RULE = ("one seed -> a real endpoint completes a handshake with a real peer (sma
         "predicts for each frame the set of acceptable outcomes: no close, or close with FLOW_CONTROL_ERROR / "
         "STREAM_LIMIT_ERROR / FINAL_SIZE_ERROR / STREAM_STATE_ERROR. The target must agree frame by frame; after every "
         "step the reassembly buffers, queued challenges, stored peer connection IDs and pending retirements are "
-        "measured against the advertised / documented bounds. non-trivial = at least 3 forged frames were judged; "
+        "measured against the advertised / documented bounds. variant honest: two unmodified endpoints with tiny "
+        "windows on a lossy network; neither may ever close with a flow-control, stream-limit, final-size or "
+        "stream-state error. non-trivial = at least 3 forged frames were judged; "
         "distinct = hash of the frame-kind/outcome sequence")
 ASSUMPTIONS = ASSUMPTIONS_TRANSPORT + [
     "when several errors apply to one frame any of them is accepted; frames for a stream that is complete in both "
@@ -28,7 +30,7 @@ ASSUMPTIONS = ASSUMPTIONS_TRANSPORT + [
     "the forger acknowledges the target's packets so that the target is never congestion-limited while advertising",
 ]
 COMPONENTS = COMPONENTS_TRANSPORT
-PLAN = plan(60, 900, ["limits", "limits", "floods"])
+PLAN = plan(60, 900, ["limits", "limits", "floods", "honest"])
 
 FLOW, SLIMIT, FINAL, SSTATE, CBUF, CIDLIM, PROTO = 0x3, 0x4, 0x6, 0x5, 0xD, 0x9, 0xA
 NAMES = {0x3: "FLOW_CONTROL_ERROR", 0x4: "STREAM_LIMIT_ERROR", 0x6: "FINAL_SIZE_ERROR", 0x5: "STREAM_STATE_ERROR",
@@ -41,6 +43,31 @@ PROFILES = {
     "floods": {"fault_free": True, "max_ops": 3, "small_limits": 0.3, "fair_budget": 60.0, "versions": False,
                "idle_timeouts": (600.0,), "floods": True},
 }
+
+
+PROFILES["honest"] = {
+    # "a peer that stays within the advertised limits is never accused": two real endpoints (which stay within
+    # the limits: C06), tiny windows so that MAX_DATA / MAX_STREAM_DATA / MAX_STREAMS updates are frequent, and a
+    # network that loses, duplicates and reorders them
+    "faults": ("drop", "dup", "delay", "blackout", "timer-late"), "small_limits": 0.9,
+    "limit_values": (1, 2, 3, 50, 500, 1199, 1200, 1201, 4000, 20000), "max_ops": 20,
+    "op_weights": {"write": 10, "fin": 3, "reset": 2.0, "stop": 1.0, "ping": 0.5, "key_update": 0.3, "change_cid": 0.3},
+    "split_stream_limits": 0.3,
+}
+ACCUSATIONS = (FLOW, SLIMIT, FINAL, SSTATE)
+
+
+class HonestOracle(Oracle):
+    def on_start(self, sim):
+        self.sim = sim
+        self.n = 0
+
+    def on_event(self, ep, ev):
+        if type(ev).__name__ == "ConnectionTerminated" and ev.error_code in ACCUSATIONS and ev.frame_type is not None:
+            raise Violation("c07.accused", "%s frame=0x%x" % (NAMES[ev.error_code], ev.frame_type),
+                            "%s: connection closed with %s (frame type 0x%x, %r) at t=%.3f although both endpoints are "
+                            "unmodified and the network only lost, duplicated and reordered datagrams" % (
+                                ep.name, NAMES[ev.error_code], ev.frame_type, ev.reason_phrase, self.sim.k.now))
 
 
 class StreamModel:
@@ -491,6 +518,12 @@ def api_violation(sim):
 
 def run_one(seed, tier="quick", variant=None, replay=None):
     variant = variant or "limits"
+    if variant == "honest":
+        from sim.goals import DeliveryGoal
+
+        out = run_transport(seed, PROFILES[variant], lambda mon: [HonestOracle(), DeliveryGoal()], replay=replay,
+                            monitor=False, variant=variant, foreign_api_exception=api_violation)
+        return out
     holder = {}
 
     def make(mon):
